@@ -262,7 +262,7 @@ Qed.
 
 Lemma LInv_ext O O' : n_ver O = n_ver O' -> n_ents O = n_ents O' -> LInv O -> LInv O'.
 Proof.
-  intros Hv He [l1 l2 l3 l4 l5 l6]. constructor; rewrite <- ?Hv, <- ?He; assumption.
+  intros Hv He [l1 l2 l3 l4 l5 l6 l7]. constructor; rewrite <- ?Hv, <- ?He; assumption.
 Qed.
 
 Lemma OwnInv_ext O O' L : n_ver O = n_ver O' -> n_ents O = n_ents O' -> OwnInv O L -> OwnInv O' L.
